@@ -342,9 +342,14 @@ func applyFault(c *Ctx, h *history, a attempt, f fault) (attempt, []vh.Val) {
 			a.mapper = &hMapper{tables: h.tables, extraFor: key}
 			mv = mapperValsFor(h.tables, "", key)
 		}
-	case "rowsquery", "intvar", "rand", "invalid":
+	case "rowsquery", "intvar", "rand", "invalid", "unknowntable":
 		var ev []byte
 		switch f.kind {
+		case "unknowntable":
+			ev = unknownTableRows(c, h)
+			if ev == nil {
+				ev = rawEvent(c, h.cfg, 29, []byte{3, 'a', 'b', 'c'})
+			}
 		case "rowsquery":
 			ev = rawEvent(c, h.cfg, 29, []byte{3, 'a', 'b', 'c'})
 		case "intvar":
@@ -382,7 +387,7 @@ func rawEvent(c *Ctx, cfg Cfg, typ int, body []byte) []byte {
 	return b
 }
 
-var faultKinds = []string{"end", "cancel", "handler", "handler-cancel", "mapper", "mismatch", "rowsquery", "intvar", "rand", "invalid"}
+var faultKinds = []string{"end", "cancel", "handler", "handler-cancel", "mapper", "mismatch", "rowsquery", "intvar", "rand", "invalid", "unknowntable"}
 
 func runC04(c *Ctx) {
 	c.R.Rule = "history x fault kind {stream end, cancel, handler error, mapper error, mapper column-count mismatch, RowsQuery/IntVar/Rand event, invalid event} x fault point (every event / transaction index) x up to 3 failed attempts, then a clean attempt from the stored position; distinct = (fault kind, position class: before/inside/at-commit/after tx, attempt count)"
@@ -445,7 +450,7 @@ func runC04(c *Ctx) {
 								fa.at = 2 + r.Intn(len(a.events)-1)
 							}
 						}
-						if (fk == "end" || fk == "cancel" || fk == "invalid" || fk == "rowsquery" || fk == "intvar" || fk == "rand") && fa.at > len(a.events) {
+						if (fk == "end" || fk == "cancel" || fk == "invalid" || fk == "rowsquery" || fk == "intvar" || fk == "rand" || fk == "unknowntable") && fa.at > len(a.events) {
 							fa.at = len(a.events)
 						}
 						a, mv = applyFault(c, h, a, fa)
